@@ -7,7 +7,7 @@ REQUIRED_THEOREMS = ["read_as_int", "read_as_bytes", "field_arith", "buffer_unch
 TRIVIAL_TAGS = {"empty-buffer"}
 RULE = ("requests `rint|rbytes|xbits <buffer> <cursor> <width>`; systematic: random buffers of 0..9 bytes x every "
         "(p, n) with p+n <= 8|B|+16, special widths {0,1,7,8,9,63,64,65,255,256,1000} at every p mod 8, random "
-        "buffers up to 64 KiB; non-trivial = non-empty buffer and width > 0; distinct = distinct request line")
+        "buffers up to 64 KiB, buffers of 65543..131072 bytes read in their last bytes and across byte 65542; non-trivial = non-empty buffer and width > 0; distinct = distinct request line")
 ASSUMPTIONS = ["CPython int/bytes/slicing semantics are as modelled (validated differentially on every run)"]
 MODEL_IS_SPEC = False
 
@@ -57,6 +57,25 @@ def generate(rng, tier):
             else:
                 n = min(n, 16384)
             yield f"{op} {hx(buf)} {p} {n}", "big"
+    # buffers longer than any single CCSDS packet (what segment combining builds, or a caller constructs directly):
+    # reads in the last bytes, and across the 65542-byte mark (6 + 65536, the longest length a header can describe)
+    for _ in range(3 if tier == "quick" else 40):
+        ln = rng.choice([65543, 65550, 66000, 80006, 131072])
+        buf = rng.randbytes(ln)
+        for _ in range(8):
+            n = rng.choice([1, 7, 8, 16, 32, 64, 13, 24])
+            where = rng.choice(["end", "mark", "past", "past"])
+            if where == "end":
+                p = 8 * ln - n - rng.choice([0, 0, 1, 8, 9])
+            elif where == "mark":
+                p = 8 * 65542 - rng.randrange(0, n + 1)
+            else:
+                p = rng.randrange(8 * 65542, 8 * ln - n + 1)
+            op = rng.choice(['rint', 'rbytes', 'rbytes'])
+            if op == 'rbytes' and rng.random() < 0.5:
+                p -= p % 8; n = max(8, n - n % 8)
+            p = max(0, min(p, 8 * ln - n))
+            yield f"{op} {hx(buf)} {p} {n}", "huge"
     yield from gen_sequences(rng, tier)
 
 
